@@ -1107,31 +1107,47 @@ static Case genArray() {
   s.a = {*rng(0, 1), *rng(0, 3), ts, k, *rng(0, 1)};
   c.push_back(s);
   ll n = 0;
+  std::vector<ll> pool;          // values that occur in the data: thresholds / search targets are drawn from it half of the time
   const ll nsets = *rng(1, 3);
   for (ll j = 0; j < nsets; ++j) {
     Op d; d.k = A_DATA;
     n = pickLength(ts, k);
-    const ll style = *rng(0, 3);
-    for (ll i = 0; i < n; ++i) d.a.push_back(style == 0 ? *rng(-9, 9) : style == 1 ? *rng(0, 3) : style == 2 ? *rng(-2, 2) : (i % 7) - 3);
+    const ll style = *rng(0, 5);
+    if (style >= 4 && n > 0) {
+      // one extreme value at a single position (first, second, last, ... or anywhere), everything else constant or noise
+      const ll base = *rng(-2, 2), spike = base + (*rng(0, 1) ? *rng(3, 6) : -*rng(3, 6));
+      const ll w = *rng(0, 7);
+      const ll pos = w == 0 ? 0 : w == 1 ? 1 : w == 2 ? 2 : w == 3 ? n - 1 : w == 4 ? n - 2 : *rng(0, n - 1);
+      const ll at = pos < 0 ? 0 : pos >= n ? n - 1 : pos;
+      for (ll i = 0; i < n; ++i) d.a.push_back(i == at ? spike : style == 4 ? base : base + *rng(-1, 1));
+      pool.push_back(spike); pool.push_back(base);
+    } else {
+      for (ll i = 0; i < n; ++i) d.a.push_back(style == 0 ? *rng(-9, 9) : style == 1 ? *rng(0, 3) : style == 2 ? *rng(-2, 2) : (i % 7) - 3);
+      if (n > 0) { pool.push_back(d.a[*rng(0, n - 1)]); pool.push_back(d.a[n > 1 ? 1 : 0]); }
+    }
     c.push_back(d);
   }
+  auto target = [&](ll lo, ll hi) -> ll {
+    if (!pool.empty() && *rng(0, 1)) return pool[*rng(0, (ll) pool.size() - 1)] - *rng(0, 3) / 3;   // the value itself, sometimes one below
+    return *rng(lo, hi);
+  };
   const ll nops = *rng(1, 5);
   for (ll i = 0; i < nops; ++i) {
     Op o;
     const ll w = *rng(0, 39);
     if (w < 6) { o.k = A_MAP; o.a = {*rng(0, 4), *rng(-9, 9)}; }
     else if (w < 10) { o.k = A_MAPTO; o.a = {*rng(0, 2), *rng(0, 2) == 0 ? n : *rng(1, 75)}; }
-    else if (w < 13) { o.k = A_FOREACH; o.a = {*rng(0, 2), *rng(-3, 3)}; }
-    else if (w < 15) { o.k = A_EVERY; o.a = {*rng(0, 2), *rng(-10, 10)}; }
-    else if (w < 17) { o.k = A_SOME; o.a = {*rng(0, 2), *rng(-10, 10)}; }
-    else if (w < 20) { o.k = A_FIND; o.a = {*rng(0, 2), *rng(-4, 9)}; }
-    else if (w < 28) { o.k = A_REDUCE; o.a = {*rng(0, 18), *rng(-4, 9)}; }
+    else if (w < 13) { o.k = A_FOREACH; o.a = {*rng(0, 2), target(-3, 3)}; }
+    else if (w < 15) { o.k = A_EVERY; o.a = {*rng(0, 2), target(-10, 10)}; }
+    else if (w < 17) { o.k = A_SOME; o.a = {*rng(0, 2), target(-10, 10)}; }
+    else if (w < 20) { o.k = A_FIND; o.a = {*rng(0, 2), target(-4, 9)}; }
+    else if (w < 28) { o.k = A_REDUCE; o.a = {*rng(0, 18), target(-4, 9)}; }
     else if (w < 30) { o.k = A_MINMAX; }
     else if (w < 32) { o.k = A_SLICE; o.a = {*rng(0, 70), *rng(-1, 1) < 0 ? -1 : *rng(0, 70)}; }
     else if (w < 33) { o.k = A_CONCAT; const ll m = *rng(1, 9); for (ll j = 0; j < m; ++j) o.a.push_back(*rng(-9, 9)); }
     else if (w < 34) { o.k = A_FILL; o.a = {*rng(-9, 9)}; }
     else if (w < 35) { o.k = A_DOT; o.a = {*rng(0, 6)}; }
-    else if (w < 39) { o.k = A_HELPER; o.a = {*rng(0, 11), *rng(-4, 9), *rng(-9, 9)}; }
+    else if (w < 39) { o.k = A_HELPER; o.a = {*rng(0, 11), target(-4, 9), *rng(-9, 9)}; }
     else { o.k = A_SETTILE; o.a = {pickTile(), pickIters()}; }
     c.push_back(o);
   }
